@@ -21,7 +21,7 @@ CHECKS = {
                 note="The matrix is finite and hand-chosen; types outside it are not covered."),
     "C04": dict(engine="SIM-R", category="exploration", design_ref="DESIGN.md 2.2, 3, App. A",
                 technique="deterministic simulation: seeded operation histories on generated records vs. an offset-free reference model; dev + release + Miri arms; low-rate fault injection on bystander records",
-                text="Seeded search over (definition from the real builder/generator, capacity, operation history): New/NewUninit/Get/Set/Mutate/Move/Unpack on up to 4 live records in inline, boxed and shifted-box placements; after every step every field of every live record is read back through & and &mut accessors and compared with the model (unique values, so each read is attributable to one write), also right after injected faults on other records. Samples definitions and histories; no proof.",
+                text="Seeded search over (definition from the real builder/generator, capacity, operation history): New/NewUninit/Get/Set/Mutate/Move/Unpack on up to 4 live records in inline, boxed and shifted-box placements; after every step every field of every live record is read back through & and &mut accessors and compared with the model (unique values, so each read is attributable to one write), also right after injected faults on other records. Every arm also runs directed tours that call every generated function of every variant of every definition once (both constructor routes incl. the From impls, every accessor, unpack). Definitions: directed corpus + 150 (quick) / 400 (thorough) seeded builder histories in the unoptimised arm, corpus + 12 / 85 in the optimised, and Miri arms. Samples definitions and histories; no proof.",
                 note="Trusts the glue emitter and model (exercised by seeded mutants), rustc, Miri for the UB classes mapped to C04. Definitions: directed corpus + seeded swarm; field types from a fixed catalogue."),
     "C05": dict(engine="SIM-R", category="exploration", design_ref="DESIGN.md 2.2, 3, App. A",
                 technique="deterministic simulation: conversion chains through all four generated forms (single records and in-place vector conversion) vs. reference model, dev + release + Miri arms",
@@ -49,12 +49,12 @@ CHECKS = {
                 note="Which hasher keys or addresses a process gets cannot be chosen, only made different."),
     "C15": dict(engine="SIM-R", category="fault_enumeration", design_ref="DESIGN.md 2.2, 3",
                 technique="deterministic simulation with fault injection: refinement of serde's tuple implementation under faulty readers/writers, stream mutations and failing element codecs",
-                text="For every variant of serde-enabled definitions, JSON and bincode: encode(record) must equal encode(tuple of its fields) byte for byte, and decode::<Record>(s) must agree with decode::<(T0,..)>(s) (both error, or both ok with equal fields; never a panic) for well-formed streams and for streams truncated at any byte, with a flipped bit, with an extra, missing or wrongly typed element, delivered through readers with short reads, EINTR, an error or early EOF at byte k, and with the n-th element codec failing; after every rejected decode nothing decoded so far survives (ledger). Fault positions are drawn by seed (not exhaustively enumerated per stream).",
+                text="For every variant of serde-enabled definitions, JSON and bincode: encode(record) must equal encode(tuple of its fields) byte for byte, and decode::<Record>(s) must agree with decode::<(T0,..)>(s) (both error, or both ok with equal fields; never a panic) for well-formed streams and for streams truncated at any byte, with a flipped bit, with an extra, missing or wrongly typed element, delivered through readers with short reads, EINTR, an error or early EOF at byte k, and with the n-th element codec failing; after every rejected decode nothing decoded so far survives (ledger). Three serde arms: serde_json reader / writer, bincode, serde_json::Value (lengths known in advance). DecodeSweep operations and the directed tours enumerate, per stream, every truncation point, every failing element, every failing reader byte and every flipped bit (thinned beyond 160 positions); further fault positions are drawn by seed inside random histories.",
                 note="Reference model = serde's own tuple implementation (the wire shape the fragment documents): a change of wire shape, e.g. to a length-prefixed sequence in bincode, would be reported as a divergence although round trips could still work. Round-trip equality is reported only where the tuple model round-trips too, so format limitations (e.g. u128 in JSON) cannot raise an alarm."),
     "C16": dict(engine="SIM-R", category="fault_enumeration", design_ref="DESIGN.md 2.2, 3",
                 technique="deterministic simulation with fault injection: clone / clone_from with a panic injected at the clone of every field j; equality, independence and ledger oracles",
-                text="For every variant of clone-enabled definitions: clone yields equal fields with fresh live instances, later mutation/drop of either side leaves the other intact (checked by the per-step read-back of all live records); clone_from makes the target equal while its previous instances are destroyed exactly once; a panic is injected at the clone of field j for j drawn over all fields: after unwinding the source is intact, each target field holds its old or new value, nothing leaked or destroyed twice.",
-                note="j is drawn by seed over all fault points of each variant rather than enumerated per history; the probe clone_panic_on_last_field shows the extremes are reached."),
+                text="For every variant of clone-enabled definitions: clone yields equal fields with fresh live instances, later mutation/drop of either side leaves the other intact (checked by the per-step read-back of all live records); clone_from makes the target equal while its previous instances are destroyed exactly once; a panic is injected at the clone of every field j in turn (CloneSweep operation and directed tours; additionally j drawn by seed inside random histories): after unwinding the source is intact, each target field holds its old or new value, nothing leaked or destroyed twice; a clone that returns after fewer field clones than the record has clonable fields is reported.",
+                note="Enumeration over j is complete per swept record; which records are swept is decided by seed and by the tours (every variant of every definition at least once)."),
 }
 
 NOT_APPLICABLE = {
